@@ -11,6 +11,7 @@ package main
 //                del~<enr>                               table.deleteNode
 //                bad~<idhex>~<valuehex>                  radius cache entry written directly (malformed lengths)
 //                g~<srcid|->~<contentkey>~<ncontent>~<nkeys>   GossipAndReturnPeers
+// concrete ops   pp~<enr1>~<ping1>~<enr2>~<ping2> (two pings served back to back on one P, then waited for; two abstract E ops)
 // concrete ops   rad~<32-byte big-endian storage radius | ->    add~<enr> (PortalProtocol.AddEnr)
 // abstract ops   E~<pong>~<id>~<present>~<ptype>~<radius|x>~<own storage radius | ->   A~<id>~<addFoundNode returned true>   N[~<id>] (no cache effect)   B~<id>~<radius|bad>   G~<src|->~<cid>~<nc>~<nk>~<table records in nodeList order>
 // observations   c=<cached radius of the sender as a number | none | bad>[;p=<payload type of the PONG this node answered with>:<radius it announces | x>]      ok~<returned tags>~<offered tags> / err / panic
@@ -69,6 +70,62 @@ func c20exec(c *Ctx, keyhex, proto string, permits int, ins []c11ins, ops []stri
 	for _, op := range ops {
 		f := strings.Split(op, "~")
 		switch f[0] {
+		case "pp": // two pings of two table nodes served back to back, before the first one's payload has been processed
+			n1, e1 := hNodeFromBytes(unhx(f[1]))
+			n2, e2 := hNodeFromBytes(unhx(f[3]))
+			if e1 != nil || e2 != nil {
+				panic("pp")
+			}
+			m1, m2 := unhx(f[2]), unhx(f[4])
+			own := ownRadius()
+			var r1, r2 []byte
+			done := true
+			if pn, m := guard(func() {
+				r1, r2, done = inst.HandleTwoTalkRequestsBackToBack(n1, c20nodeAddr(n1), m1, n2, c20nodeAddr(n2), m2)
+			}); pn {
+				abs = append(abs, "N", "N")
+				obs = append(obs, "panic "+m, "-")
+				continue
+			}
+			if !done {
+				c.Count("history_unobserved_ping_processing_did_not_finish")
+				c.Emit("gs-unobserved %s %s | unobserved", keyhex, proto)
+				return
+			}
+			for k, nm := range []struct {
+				n    *enode.Node
+				msg  []byte
+				resp []byte
+			}{{n1, m1, r1}, {n2, m2, r2}} {
+				_ = k
+				p := &portalwire.Ping{}
+				if len(nm.msg) < 1 || p.UnmarshalSSZ(nm.msg[1:]) != nil {
+					abs = append(abs, "N~"+c20idHex(nm.n.ID()))
+					obs = append(obs, c20cacheObs(inst, nm.n.ID()))
+					continue
+				}
+				rad := "x"
+				if rb, ok := portalwire.VerifHDecodeRadius(p.PayloadType, p.Payload); ok {
+					rad = c20num(rb)
+				}
+				present := "0"
+				if inst.InTableOrReplacement(nm.n.ID()) {
+					present = "1"
+				}
+				ownPong := ";p=nil"
+				if len(nm.resp) > 0 && nm.resp[0] == portalwire.PONG {
+					pg := &portalwire.Pong{}
+					if err := pg.UnmarshalSSZ(nm.resp[1:]); err == nil {
+						ownPong = fmt.Sprintf(";p=%d:x", pg.PayloadType)
+						if rb, ok := portalwire.VerifHDecodeRadius(pg.PayloadType, pg.Payload); ok {
+							ownPong = fmt.Sprintf(";p=%d:%s", pg.PayloadType, c20num(rb))
+						}
+					}
+				}
+				abs = append(abs, fmt.Sprintf("E~0~%s~%s~%d~%s~%s", c20idHex(nm.n.ID()), present, p.PayloadType, rad, own))
+				obs = append(obs, c20cacheObs(inst, nm.n.ID())+ownPong)
+			}
+			c.Count("two_pings_back_to_back")
 		case "rad": // the storage radius changes (prune): later PONGs must announce the new value
 			if f[1] == "-" {
 				store.radius = nil
@@ -130,10 +187,15 @@ func c20exec(c *Ctx, keyhex, proto string, permits int, ins []c11ins, ops []stri
 				// the ping payload is processed in its own goroutine, which may first re-request the sender's record over the
 				// network; wait for it as long as it takes (a minute at most).  If it still runs then, the state of the cache is
 				// not determined: the history is given up as unobserved rather than compared.
-				if !inst.WaitPings(60 * time.Second) {
+				if !inst.WaitPings(20 * time.Second) {
 					c.Count("history_unobserved_ping_processing_did_not_finish")
 					c.Emit("gs-unobserved %s %s | unobserved", keyhex, proto)
-					inst.WaitPings(10 * time.Minute)
+					// the instance's transport is stuck (seen under load: the discv5 dispatch loop of the library blocked on its
+					// own write queue): give the goroutine a little longer, then continue with a fresh instance
+					if !inst.WaitPings(5 * time.Second) {
+						hInstanceDrop(inst)
+						c.Count("instance_dropped_transport_stuck")
+					}
 					return
 				}
 				// the PONG this node answered with: payload type and the radius it announces
@@ -372,7 +434,7 @@ func c20case(c *Ctx, r *Rng, keys []string) {
 		ipk := r.Pick2([]string{"loop", "lan10", "lan192", "pub"})
 		n := hRecord(nil, id, hIP(r, ipk), 30303, uint64(1+r.Intn(3)), 0)
 		nodes = append(nodes, n)
-		ins = append(ins, c11ins{hEnrBytes(n), r.Intn(6) != 0})
+		ins = append(ins, c11ins{hEnrBytes(n), r.Intn(6) != 0, false})
 	}
 	// sometimes the second real instance is a table entry: it answers the ENR re-request a higher sequence number triggers
 	var livePeer enode.ID
@@ -384,7 +446,7 @@ func c20case(c *Ctx, r *Rng, keys []string) {
 		pn := hInstanceP(other, "-", proto, 50).Self()
 		livePeer = pn.ID()
 		nodes = append(nodes, pn)
-		ins = append(ins, c11ins{hEnrBytes(pn), true})
+		ins = append(ins, c11ins{hEnrBytes(pn), true, false})
 		c.Count("table_holds_live_peer")
 	}
 	outsider := func() *enode.Node {
@@ -519,6 +581,35 @@ func c20case(c *Ctx, r *Rng, keys []string) {
 		}
 		n := nodes[r.Intn(len(nodes))]
 		c.Count("report_burst")
+		if len(nodes) >= 2 && r.Intn(4) == 0 {
+			// two different table nodes ping back to back with different radii (same payload type): each must end up with its own
+			n2 := nodes[r.Intn(len(nodes))]
+			if n2.ID() != n.ID() {
+				t := radiusTypes[r.Intn(len(radiusTypes))]
+				mk := func(x *enode.Node) string {
+					near := enode.LogDist(x.ID(), enode.ID(cid))
+					xd := new(big.Int).Xor(new(big.Int).SetBytes(x.ID().Bytes()), new(big.Int).SetBytes(cid[:]))
+					radius := c20radius(r, near, xd)
+					var payload []byte
+					switch t {
+					case pingext.ClientInfo:
+						pl := pingext.NewClientInfoAndCapabilitiesPayload(radius, []uint16{0, 65535})
+						payload, _ = pl.MarshalSSZ()
+					case pingext.BasicRadius:
+						pl := pingext.NewBasicRadiusPayload(radius)
+						payload, _ = pl.MarshalSSZ()
+					default:
+						pl := pingext.NewHistoryRadiusPayload(radius, uint16(r.Intn(3)))
+						payload, _ = pl.MarshalSSZ()
+					}
+					lastRadius[x.ID()] = radius
+					m := &portalwire.Ping{EnrSeq: 0, PayloadType: t, Payload: payload}
+					b, _ := m.MarshalSSZ()
+					return hx(hEnrBytes(x)) + "~" + hx(append([]byte{portalwire.PING}, b...))
+				}
+				ops = append(ops, "pp~"+mk(n)+"~"+mk(n2))
+			}
+		}
 		start := r.Intn(len(radiusTypes))
 		sameType := r.Intn(3) == 0 // e.g. HistoryRadius several times in a row
 		for j, k := 0, 2+r.Intn(5); j < k; j++ {
@@ -639,7 +730,7 @@ func c20directed(c *Ctx, r *Rng, keys []string) {
 	}
 	var ins []c11ins
 	for _, n := range nodes {
-		ins = append(ins, c11ins{hEnrBytes(n), true})
+		ins = append(ins, c11ins{hEnrBytes(n), true, false})
 	}
 	src := inner[r.Intn(len(inner))]
 	maxRadius := make([]byte, 32)
